@@ -10,6 +10,7 @@
    applies them to rendered type strings; rendered types are an AST [rty] with printer [show].  The JSON
    decoder / cattrs are abstract (Section variables in Proofs/Response.v).  No proofs in this file. *)
 From PG Require Import Lib.Strs Model.Dispatch.
+From PG Require Export Gen.T_C05.
 
 (* ------------------------------------------------------------------ string primitives (ASCII domain) *)
 Fixpoint find_from (p s : str) (i : nat) (fuel : nat) : option nat :=      (* s.find(p) *)
@@ -55,11 +56,6 @@ Definition s_Any := L[65;110;121].  Definition s_Dict := L[68;105;99;116].  Defi
 Definition s_dict := L[100;105;99;116].  Definition s_list := L[108;105;115;116].  Definition s_tuple := L[116;117;112;108;101].
 Definition s_Union := L[85;110;105;111;110].  Definition s_Tuple := L[84;117;112;108;101].
 Definition s_Optional := L[79;112;116;105;111;110;97;108].
-Definition builtin_names : list str :=
-  [s_str; s_int; s_float; s_bool; s_bytes; s_None; s_Any; s_Dict; s_List; s_dict; s_list; s_tuple].
-Definition construct_prefixes : list str :=     (* ("dict[", "List[", "Union[", "Tuple[", "dict[", "list[", "tuple[") *)
-  [s_dict ++ s_lb; s_List ++ s_lb; s_Union ++ s_lb; s_Tuple ++ s_lb; s_dict ++ s_lb; s_list ++ s_lb; s_tuple ++ s_lb].
-Definition s_object := L[111;98;106;101;99;116].  Definition s_array := L[97;114;114;97;121].
 Definition s_string := L[115;116;114;105;110;103].  Definition s_integer := L[105;110;116;101;103;101;114].
 Definition s_number := L[110;117;109;98;101;114].  Definition s_boolean := L[98;111;111;108;101;97;110].
 Definition s_bar_None := L[32;124;32;78;111;110;101].         (* " | None" *)
@@ -90,8 +86,7 @@ Definition is_alias_to_array (reg : registry) (t : str) : bool :=
 Definition is_alias_to_primitive (reg : registry) (t : str) : bool :=
   match alookup (cut_bracket t) reg with
   | Some i => is_type_alias i &&
-              (opt_str_eqb (si_type i) s_string || opt_str_eqb (si_type i) s_integer
-               || opt_str_eqb (si_type i) s_number || opt_str_eqb (si_type i) s_boolean)
+              (match si_type i with Some ty => mem_str ty alias_prim_types | None => false end)
   | None => false
   end.
 Definition extract_array_item_type (reg : registry) (t : str) : str :=
@@ -115,7 +110,7 @@ Definition is_dataclass_type (reg : registry) (t : str) : bool :=
   else let base := cut_bracket t in
        match alookup base reg with
        | Some i => opt_str_eqb (si_type i) s_object || si_props i
-       | None => first_upper base && negb (mem_str base [s_Dict; s_List; s_Union; s_Tuple; s_Optional])
+       | None => first_upper base && negb (mem_str base not_model_names_dataclass)
        end.
 
 (* _should_use_cattrs_structure.  Domain: the extracted base type is non-empty (else Python raises IndexError). *)
@@ -135,7 +130,7 @@ Definition should_use_cattrs (reg : registry) (t : str) : bool :=
   else if is_alias_to_primitive reg t then false
   else if is_alias_to_array reg t then is_dataclass_type reg (extract_array_item_type reg t)
   else contains_s s_dot base
-       || (first_upper base && negb (mem_str base [s_Dict; s_List; s_Union; s_Tuple; s_dict; s_list; s_tuple])).
+       || (first_upper base && negb (mem_str base not_model_names_cattrs)).
 
 (* _get_cattrs_deserialization_code(return_type, data_expr): the code string, or None for ValueError *)
 Definition sfd (d t : str) : str := s_sfd ++ d ++ s_comma_sp ++ t ++ [41].
@@ -216,26 +211,15 @@ Record centry := { c_media : str; c_type : rty; c_binfmt : bool }.
 Record cresp := { cr_code : code; cr_content : list centry }.
 Definition cop := list cresp.
 
-Definition m_json := L[97;112;112;108;105;99;97;116;105;111;110;47;106;115;111;110].      (* application/json *)
-Definition m_octet := L[97;112;112;108;105;99;97;116;105;111;110;47;111;99;116;101;116;45;115;116;114;101;97;109].
-Definition m_pdf := L[97;112;112;108;105;99;97;116;105;111;110;47;112;100;102].
-Definition m_sse := L[116;101;120;116;47;101;118;101;110;116;45;115;116;114;101;97;109].        (* text/event-stream *)
-Definition m_ndjson := L[97;112;112;108;105;99;97;116;105;111;110;47;120;45;110;100;106;115;111;110].
-Definition m_jsonseq := L[97;112;112;108;105;99;97;116;105;111;110;47;106;115;111;110;45;115;101;113].
-Definition m_mpmixed := L[109;117;108;116;105;112;97;114;116;47;109;105;120;101;100].
-Definition w_json := L[106;115;111;110].  Definition w_event_stream := L[101;118;101;110;116;45;115;116;114;101;97;109].
-Definition p_text := L[116;101;120;116;47].  Definition p_image := L[105;109;97;103;101;47].
-Definition p_audio := L[97;117;100;105;111;47].  Definition p_video := L[118;105;100;101;111;47].
 Definition lower_s (s : str) : str := map lower_ascii s.
 
 (* parser.py: STREAM_FORMATS.get(mt.lower()) for any entry, else any schema format == "binary" *)
-Definition stream_formats : list str := [m_octet; m_sse; m_ndjson; m_jsonseq; m_mpmixed].
 Definition is_stream (r : cresp) : bool :=
   existsb (fun e => mem_str (lower_s (c_media e)) stream_formats) (cr_content r)
   || existsb c_binfmt (cr_content r).
 
 Definition is_binary_media (m : str) : bool :=
-  str_eqb m m_octet || str_eqb m m_pdf || starts_any [p_image; p_audio; p_video] m.
+  mem_str m binary_media_exact || starts_any binary_media_prefixes m.
 
 (* _resolve_content_type_to_python_type; the schema object is always present (parser fills a placeholder),
    and every modelled schema has a `type`/`format` attribute *)
@@ -256,7 +240,7 @@ Definition strategy_schema (cs : list centry) : option centry :=
   end.
 (* response_handler_generator._get_response_schema: application/json, else first *)
 Definition handler_schema (cs : list centry) : option centry :=
-  match find (fun e => str_eqb (c_media e) m_json) cs with Some e => Some e | None => hd_error cs end.
+  match find (fun e => str_eqb (c_media e) m_json_handler) cs with Some e => Some e | None => hd_error cs end.
 
 Definition rty_eqb_show (a b : rty) : bool := str_eqb (show a) (show b).
 Fixpoint dedup_types (ts : list rty) (seen : list rty) : list rty :=     (* `if python_type not in resolved_types` on strings *)
@@ -540,10 +524,19 @@ Definition C05_holds (d : dcase) : bool :=
      | _ => true
      end.
 
-(* F05b: the string heuristic and the annotated type disagree on whether the JSON must be structured *)
+(* F05b: the string heuristic and the annotated type disagree on whether the JSON must be structured — or, when it
+   structures, the rendered call does not target the declared type itself *)
+Definition deser_direct (reg : registry) (t : rty) : bool :=
+  match deser_code reg (show t) s_rj with
+  | Some c => str_eqb c (sfd s_rj (show t))
+              || match t with TOpt u => str_eqb c (sfd s_rj (show u) ++ s_if_not_none s_rj) | _ => false end
+  | None => false
+  end.
 Definition guard_F05b (d : dcase) : bool :=
   match the_entry d with
-  | Some e => if negb (is_stream (the_resp d)) && json_like (c_media e) then heuristic_ok (d_reg d) (c_type e) else true
+  | Some e => if negb (is_stream (the_resp d)) && json_like (c_media e)
+              then heuristic_ok (d_reg d) (c_type e) && implb (needs_structure (c_type e)) (deser_direct (d_reg d) (c_type e))
+              else true
   | None => true
   end.
 (* F05c: a non-JSON body that the handler nevertheless feeds to response.json() (single text/binary content;
@@ -581,3 +574,35 @@ Definition guard_F05i (d : dcase) : bool :=
 
 Definition c05_guard (d : dcase) : bool :=
   guard_F05b d && guard_F05c d && guard_F05f d && guard_F05i d.
+
+(* ------------------------------------------------------------------ well-formed cases (executable) *)
+(* what a declared-2xx-response x content-entry case must satisfy to be an input of the property at all:
+   indices in range, response keys unique (they are keys of a JSON/YAML mapping), the response is a declared
+   2xx (numeric key starting with "2", or the one "2XX" range key with a free 2xx status to answer with), the entry
+   index matches the content, media types unique up to case, and per entry: the rendered type is not "None" and
+   does not start with "Union[", and `format: binary` is only used under a binary media type. *)
+Fixpoint distinct_codes (l : list code) : bool :=
+  match l with [] => true | c :: r => negb (existsb (code_eqb c) r) && distinct_codes r end.
+Fixpoint distinct_strs_b (l : list str) : bool :=
+  match l with [] => true | x :: r => negb (mem_str x r) && distinct_strs_b r end.
+Definition entry_type_ok (e : centry) : bool :=
+  negb (str_eqb (show (ctype_to_python e)) s_None) && negb (prefixb (s_Union ++ s_lb) (show (ctype_to_python e)))
+  && negb (str_eqb (show (c_type e)) s_None) && negb (prefixb (s_Union ++ s_lb) (show (c_type e)))
+  && implb (c_binfmt e) (is_binary_media (c_media e)).
+Definition wf_dcase (d : dcase) : bool :=
+  let o := the_cop d in let r := the_resp d in
+  Nat.ltb (d_op d) (length (d_module d)) && Nat.ltb (d_resp d) (length o)
+  && distinct_codes (map cr_code o)
+  && match cr_code r with
+     | Num n => lead2 n
+     | c => is_wildcard_2xx c
+            && forallb (fun x => implb (is_wildcard_2xx (cr_code x)) (code_eqb (cr_code x) c)) o
+            && negb (declared_num o (the_status d)) && in_range wildcard_lo wildcard_hi (the_status d)
+     end
+  && match d_entry d with
+     | Some i => Nat.ltb i (length (cr_content r))
+     | None => match cr_content r with [] => true | _ => false end
+     end
+  && distinct_strs_b (map (fun e => lower_s (c_media e)) (cr_content r))
+  && forallb entry_type_ok (cr_content r).
+
